@@ -77,7 +77,57 @@ def cases(rng, tier):
                     "ins_kind": rng.choice(["read", "read_sum"])})
     out += _float_cases(rng, 400 if tier == "quick" else 6000)
     out += _mask_cases(rng, 300 if tier == "quick" else 4000)
+    out += _print_cases(rng, 60 if tier == "quick" else 600)
     return out
+
+
+PRINT_READS = ["repr", "str", "repr_row", "repr_sel", "format", "iter", "tolist", "repr_sum", "repr_shape"]
+
+
+def _print_cases(rng, n):
+    """printing arrays of any size (a few cells, around 100 cells, beyond numpy's summarising threshold) under the CALLER's own
+    numpy print / error settings: the process-wide settings and everything printed afterwards (dense or ragged) must not depend
+    on what was printed before"""
+    out = []
+    for _ in range(n):
+        ncells = rng.choice([3, 40, 99, 100, 101, 150, 400, 1001, 1500])
+        nrows = rng.choice([1, 2, 7, 40])
+        cuts = sorted(rng.randint(0, ncells) for _ in range(nrows - 1))
+        lens = [b - a for a, b in zip([0] + cuts, cuts + [ncells])]
+        out.append({"pr": {"lens": lens, "dtype": rng.choice(["int64", "float64", "bool", "int8"]),
+                           "opts": {"linewidth": rng.choice([40, 75, 120, 200]), "precision": rng.choice([3, 8]), "threshold": rng.choice([50, 1000, 5000]),
+                                    "edgeitems": rng.choice([2, 3])},
+                           "err": rng.choice(["warn", "ignore"]),
+                           "reads": [rng.choice(PRINT_READS) for _ in range(rng.randint(1, 3))]}})
+    return out
+
+
+def _run_print(q, with_reads):
+    import numpy as np, warnings
+    from npstructures import RaggedArray
+    saved, saved_err = np.get_printoptions(), np.geterr()
+    try:
+        np.set_printoptions(**q["opts"]); np.seterr(all=q["err"])
+        n = sum(q["lens"])
+        ra = RaggedArray((np.arange(n) % 7).astype(q["dtype"]), list(q["lens"]))
+        if with_reads:
+            with warnings.catch_warnings():
+                warnings.simplefilter("ignore")
+                for kind in q["reads"]:
+                    if kind == "repr": repr(ra)
+                    elif kind == "str": str(ra)
+                    elif kind == "repr_row": repr(ra[0]); str(ra[-1])
+                    elif kind == "repr_sel": repr(ra[::-1]); repr(ra[:, :3])
+                    elif kind == "format": "{} {!r}".format(ra, ra)
+                    elif kind == "iter": [str(r) for r in ra]
+                    elif kind == "tolist": str(ra.tolist())
+                    elif kind == "repr_sum": repr(ra.astype(float).sum(axis=-1)); repr(ra.lengths)
+                    elif kind == "repr_shape": repr(ra.shape); str(ra._shape)
+        dense = np.arange(60).reshape(3, 20) * 1.5
+        po = {k: v for k, v in np.get_printoptions().items() if k != "formatter"}
+        return [str(sorted(po.items())), str(sorted(np.geterr().items())), repr(dense), str(np.arange(2000)), repr(ra), str(ra[:2])]
+    finally:
+        np.set_printoptions(**saved); np.seterr(**saved_err)
 
 
 FLOAT_READS = ["argmax", "argmin", "np.argmax", "np.argmin", "max", "min", "sum", "mean", "sort", "cumsum", "tolist", "ravel", "str", "isnan", "nonzero"]
@@ -246,7 +296,7 @@ def _run_mask(q, with_reads):
 
 
 def key(p):
-    if "mk" in p:
+    if "mk" in p or "pr" in p:
         return engine.stable_hash(p)
     if "fl" in p:
         return engine.stable_hash(p)
@@ -254,7 +304,7 @@ def key(p):
 
 
 def nontrivial(p):
-    if "fl" in p or "mk" in p:
+    if "fl" in p or "mk" in p or "pr" in p:
         return True
     kinds = [s["s"] for s in p["prog"]]
     return "assign" in kinds and "select" in kinds
@@ -263,8 +313,10 @@ def nontrivial(p):
 def distribution(ps):
     fl = [p for p in ps if "fl" in p]
     mk = [p for p in ps if "mk" in p]
-    ps = [p for p in ps if "fl" not in p and "mk" not in p]
-    return {"mask_alias_write_cases": len(mk), "mask_write_kinds": gens.hist(p["mk"]["write"] for p in mk),
+    pr = [p for p in ps if "pr" in p]
+    ps = [p for p in ps if "fl" not in p and "mk" not in p and "pr" not in p]
+    return {"print_state_cases": len(pr), "print_cells": gens.hist(sum(p["pr"]["lens"]) for p in pr),
+            "mask_alias_write_cases": len(mk), "mask_write_kinds": gens.hist(p["mk"]["write"] for p in mk),
             "float_alias_write_cases": len(fl), "float_alias_kinds": gens.hist(p["fl"]["alias"] for p in fl),
             "float_written_values": gens.hist(str(p["fl"]["val"]) for p in fl),
             "statements": gens.hist(s["s"] for p in ps for s in p["prog"]),
@@ -274,6 +326,13 @@ def distribution(ps):
 
 
 def run_impl(p):
+    if "pr" in p:
+        def hp():
+            plain = _run_print(p["pr"], False)
+            withreads = _run_print(p["pr"], True)
+            return {"k": "obs", "equal": {"k": "py", "v": plain == withreads},
+                    "detail": {"k": "py", "v": None if plain == withreads else [plain, withreads]}}
+        return guarded(hp)
     if "mk" in p:
         def hm():
             plain = _run_mask(p["mk"], False)
@@ -301,6 +360,8 @@ def run_impl(p):
 
 
 def oracle(p):
+    if "pr" in p:
+        return {"k": "obs", "equal": {"k": "py", "v": True}}
     if "mk" in p:
         return {"k": "obs", "equal": {"k": "py", "v": True}}
     if "fl" in p:
@@ -316,7 +377,7 @@ def _ins_prog(p):
 
 
 def lean_request(p):
-    if "fl" in p or "mk" in p:
+    if "fl" in p or "mk" in p or "pr" in p:
         return None
     # the Lean model runs the history with ONE extra read statement inserted; its observation is dropped afterwards
     from props import c06
